@@ -95,6 +95,7 @@ theorem valid_mono : ∀ (s : S) (d : J), valid false s d = true → valid true 
   | .strNum _, d, h => by cases d <;> simp_all [valid]
   | .strFloat _, d, h => by cases d <;> simp_all [valid]
   | .strBytes, d, h => by cases d <;> simp_all [valid]
+  | .single _, d, h => by simpa [valid] using h
   | .arr s, d, h => by
     cases d with
     | arr xs => simp only [valid, List.all_eq_true] at h ⊢; exact fun x hx => valid_mono s x (h x hx)
